@@ -14,6 +14,7 @@ import TfelVerif.C42.Lemmas
 import TfelVerif.C41.Spec
 import Mathlib.Data.Fin.VecNotation
 import Mathlib.Tactic.FinCases
+import Mathlib.Tactic.LinearCombination
 
 namespace TfelVerif.C42
 open TfelVerif TfelVerif.C41 TfelVerif.C43 TfelVerif.C42.GenFdF Finset
